@@ -139,6 +139,12 @@ def generate(rng, tier, mode="default"):
         for op in ("add_first 5", "add_last 5", "add_at 5 0", "iter n a5 n", "zip n a5:6 n"):
             for plan in ("0", "10"):
                 out.append([hdr()] + build("a", avals(n)) + build("b", [20, 21]) + ["plan " + plan, "a " + op] + probe() + ["END"])
+    # derived lists of an EMPTY source and of a one-element source, in every pair of allocator families: the blocks of
+    # the derived list (observed while it exists: own=) must come from the source's family
+    for ma, mb in (("conf", "conf"), ("libc", "libc"), ("conf", "libc"), ("libc", "conf")):
+        for vals in ([], [12], [13]):
+            for op in ("copy_shallow", "copy_deep", "filter", "sublist 0 0"):
+                out.append([hdr(ma, mb)] + build("a", vals) + build("b", [3]) + ["a " + op, "b " + op] + ["END"])
     # both allocator families; a list pair with different families (nodes copied by add_all are requested from the destination's allocator)
     for ma, mb in (("libc", "libc"), ("conf", "libc"), ("libc", "conf")):
         out.append([hdr(ma, mb)] + build("a", [1, 2]) + build("b", [3]) + ["a to_array", "a copy_shallow", "b sort", "a remove_all", "b remove_first"] + ["END"])
